@@ -221,7 +221,7 @@ def make_curve(env, cfg, prefix="P"):
     from compmec.nurbs import Curve
     vals = [F(v) for v in cfg["vals"]]
     kv = KV(vals, cfg["mults"])
-    needs_band = cfg.get("op") in ("knot_remove_real", "degree_decrease", "clean", "knot_clean", "knotvector_setter", "update", "shared") or cfg["kind"] == "two"
+    needs_band = cfg.get("op") in ("knot_remove_real", "degree_decrease", "clean", "knot_clean", "knotvector_setter", "update", "shared", "arith") or cfg["kind"] == "two"
     if needs_band:
         P = _mixed_points(env, prefix, kv.n, {0, kv.n - 1}, cfg["p"])
     else:
@@ -285,6 +285,15 @@ def body(env, cfg):
             except ValueError:
                 pass
         kmode.unchanged(env, o, so, "arithmetic: other operand")
+        # join with curves of lower and of higher degree placed after / before this one
+        for deg in ((max(kv.p - 1, 0), kv.p + 1) if W is None else ()):  # (rational join: known finding F13)
+            right = Curve([hi] * (deg + 1) + [hi + 2] * (deg + 1), [F(3 * i - 1, 2) for i in range(deg + 1)])
+            left = Curve([lo - 1] * (deg + 1) + [lo] * (deg + 1), [F(2 - i, 3) for i in range(deg + 1)])
+            sr, sl = kmode.snapshot(right), kmode.snapshot(left)
+            c | right
+            left | c
+            kmode.unchanged(env, right, sr, "join: right operand")
+            kmode.unchanged(env, left, sl, "join: left operand")
     elif op == "eq":
         Q = env.reals("Q", kv.n)
         o = Curve(list(kv.U), Q)
